@@ -273,6 +273,16 @@ func (e *Engine) verifyFunc(fn *ssa.Function, con *Contract) *VC {
 		vc.callsHavoc = true
 		vc.note("calls_havoc: preconditions of callees under contract are not checked and their postconditions are not used (only their frames)")
 	}
+	if con != nil && con.Flags["structural"] {
+		// structural contracts: only the checks that need no symbolic execution (goroutine/parent races on
+		// captured variables); meant for request dispatchers too large to execute
+		vc.note("structural: the body is not executed symbolically; only structural obligations are generated")
+		vc.goraceObligations(fn)
+		return vc
+	}
+	if con != nil {
+		vc.goraceObligations(fn)
+	}
 	st := &State{pc: "true", cells: map[*Cell]Val{}, heap: map[string]string{}, epoch: "0", ghost: map[string]Val{}, locks: map[string]int{}}
 	if con != nil {
 		for l, m := range con.Holds {
@@ -673,4 +683,135 @@ func (e *Engine) findGlobalTables() {
 		}
 	}
 	e.globalTables = cand
+}
+
+// goraceObligations: a local variable that is captured by a closure started with `go`, WRITTEN by that
+// closure, and also accessed by the enclosing function at a point reachable from the go statement is a
+// data race unless some synchronisation orders the two (which this structural check does not see: a
+// contract may list such variables with `gosync <var>` together with the reason). One obligation per
+// (variable, go statement), named #gorace:<var>@<source line of the go statement>; it fails outright
+// (no solver needed) when the pattern is present.
+func (vc *VC) goraceObligations(fn *ssa.Function) {
+	key := funcKey(fn)
+	var walk func(f *ssa.Function)
+	seen := map[*ssa.Function]bool{}
+	walk = func(f *ssa.Function) {
+		if seen[f] || f.Blocks == nil {
+			return
+		}
+		seen[f] = true
+		for _, b := range f.Blocks {
+			for idx, ins := range b.Instrs {
+				g, ok := ins.(*ssa.Go)
+				if !ok {
+					continue
+				}
+				mc, ok := g.Call.Value.(*ssa.MakeClosure)
+				if !ok {
+					continue
+				}
+				cf, ok := mc.Fn.(*ssa.Function)
+				if !ok || cf.Blocks == nil {
+					continue
+				}
+				for bi, bind := range mc.Bindings {
+					al, ok := bind.(*ssa.Alloc)
+					if !ok || al.Parent() != f || bi >= len(cf.FreeVars) {
+						continue
+					}
+					if !closureWrites(cf, cf.FreeVars[bi], map[*ssa.Function]bool{}) {
+						continue
+					}
+					if vc.topCon != nil && vc.topCon.Gosync[al.Comment] {
+						continue
+					}
+					if acc := accessAfter(f, b, idx, al, mc); acc != nil {
+						pos := vc.eng.fset.Position(g.Pos())
+						apos := vc.eng.fset.Position(acc.Pos())
+						name := fmt.Sprintf("%s#gorace:%s@%s", key, al.Comment, strings.TrimSpace(vc.eng.lineText(pos)))
+						vc.obls = append(vc.obls, &Obligation{Name: name, Kind: "lockset",
+							Desc: fmt.Sprintf("variable %s is written by the goroutine started here and accessed by %s afterwards (%s:%d) with no synchronisation visible", al.Comment, f.Name(), shortFile(apos.Filename), apos.Line),
+							Pos: pos, PC: "true", Goal: "false", Mark: vc.sc.mark(), Func: key})
+					}
+				}
+			}
+		}
+		for _, af := range f.AnonFuncs {
+			walk(af)
+		}
+	}
+	n0 := len(vc.obls)
+	walk(fn)
+	if len(vc.obls) == n0 && vc.topCon != nil && vc.topCon.Flags["structural"] {
+		vc.obls = append(vc.obls, &Obligation{Name: key + "#gorace.none", Kind: "lockset",
+			Desc: "no variable written by a goroutine started in this function is accessed by the function afterwards",
+			Pos:  vc.eng.fset.Position(fn.Pos()), PC: "true", Goal: "true", Mark: vc.sc.mark(), Func: key})
+	}
+}
+
+// closureWrites: the closure (or a closure nested in it that captures the same variable) stores to fv.
+func closureWrites(cf *ssa.Function, fv *ssa.FreeVar, seen map[*ssa.Function]bool) bool {
+	if seen[cf] {
+		return false
+	}
+	seen[cf] = true
+	for _, b := range cf.Blocks {
+		for _, ins := range b.Instrs {
+			switch ins := ins.(type) {
+			case *ssa.Store:
+				if ins.Addr == fv {
+					return true
+				}
+			case *ssa.MakeClosure:
+				if inner, ok := ins.Fn.(*ssa.Function); ok {
+					for bi, bind := range ins.Bindings {
+						if bind == fv && bi < len(inner.FreeVars) && closureWrites(inner, inner.FreeVars[bi], seen) {
+							return true
+						}
+					}
+				}
+			}
+		}
+	}
+	return false
+}
+
+// accessAfter: an instruction of f, reachable from position (b, idx) exclusive, that loads from or stores
+// to the alloc (other than the MakeClosure that captured it).
+func accessAfter(f *ssa.Function, b *ssa.BasicBlock, idx int, al *ssa.Alloc, skip ssa.Instruction) ssa.Instruction {
+	uses := func(ins ssa.Instruction) bool {
+		if ins == skip {
+			return false
+		}
+		switch ins := ins.(type) {
+		case *ssa.Store:
+			return ins.Addr == al
+		case *ssa.UnOp:
+			return ins.Op == token.MUL && ins.X == al
+		}
+		return false
+	}
+	for _, ins := range b.Instrs[idx+1:] {
+		if uses(ins) {
+			return ins
+		}
+	}
+	visited := map[*ssa.BasicBlock]bool{}
+	var stack []*ssa.BasicBlock
+	stack = append(stack, b.Succs...)
+	for len(stack) > 0 {
+		x := stack[len(stack)-1]
+		stack = stack[:len(stack)-1]
+		if visited[x] {
+			continue
+		}
+		visited[x] = true
+		for _, ins := range x.Instrs {
+			if uses(ins) {
+				return ins
+			}
+		}
+		stack = append(stack, x.Succs...)
+	}
+	return nil
 }
